@@ -21,7 +21,7 @@ ROOT = os.path.dirname(os.path.dirname(os.path.abspath(__file__)))
 PY = "/venv/bin/python" if os.path.exists("/venv/bin/python") else sys.executable
 
 # wall-clock safety caps (seconds); hitting one only truncates (inconclusive, exit 0)
-CAPS = {"quick": 420, "thorough": 3600}
+CAPS = {"quick": 420, "thorough": 2700}
 
 
 def load_known(prop):
